@@ -86,10 +86,11 @@ def _only_empty_recordsets(s):
 
 
 def _m_reflist_empty(v):
-  """RefList: an empty RecordSet (or a list of empty RecordSets) becomes an empty list, which converts to None."""
+  """RefList/Attachments.do_convert returns an empty list (an empty RecordSet, a list of empty RecordSets, or a
+  truthy iterable that yields nothing), but converts an empty list to None."""
   c, s = v["case"], _spec(v)
-  return (_idem(v) and c["t"] in ("RefList", "Attachments") and _only_empty_recordsets(s)
-          and c["out"]["k"] == "list" and c["out"]["tok"] == "L[]" and c["out2"]["k"] == "none")
+  return (_idem(v) and c["t"] in ("RefList", "Attachments") and c["out"]["k"] == "list" and c["out"]["tok"] == "L[]"
+          and c["out2"]["k"] == "none" and (_only_empty_recordsets(s) or c["inp"]["k"] == "other"))
 
 
 def _m_object_str(v):
@@ -104,7 +105,7 @@ MATCHERS = {
   "huge_int_alttext_reparsed_as_inf": _m_huge_int,
   "alttext_not_unwrapped": _m_alttext,
   "choicelist_empty_tuple": _m_choicelist_empty,
-  "reflist_empty_recordset": _m_reflist_empty,
+  "reflist_empty_list": _m_reflist_empty,
   "object_str_reparsed": _m_object_str,
 }
 
